@@ -499,7 +499,8 @@ def step (s : DState) (line : String) : DState × String :=
       let spec := match op with
         | .addByName n | .avpName n =>
           (match s.ms.dict.getByName n with | some d => "def:" ++ d.dump | none => "def:none") ++
-            " | n=" ++ toString (defsNamed s.ms.dict n).length
+            " | n=" ++ toString (defsNamed s.ms.dict n).length ++ " live=" ++
+            String.intercalate ";" ((defsNamed s.ms.dict n).map Def.dump)
         | _ => "- | -"
       ({ s with ms := ms }, statusStr st ++ " | " ++ spec)
     | none => plain s "bad-op"
